@@ -59,6 +59,14 @@ def run_shard(desc, R, tier):
             for o in c04.CONFIGS[cls]:
                 for nf in (None, 17, 32, 33):
                     eval_point({'kind': 'cls', 'cls': cls, 'o': o, 'x': x, 'NFFT': nf, 'name': name}, R)
+            if cls == 'pburg' and (name.startswith('weyl') or name.startswith('cweyl')):      # order 8 needs non-degenerate (noise-like) records
+                for crit in ('AIC', 'MDL', 'AKICc', 'FPE'):
+                    for nf in (None, 33):
+                        eval_point({'kind': 'burgcrit', 'x': x, 'NFFT': nf, 'criteria': crit, 'name': name}, R)
+            if cls == 'Periodogram':
+                for P in (2, 3):
+                    for nf in (None, 33, 64):
+                        eval_point({'kind': 'daniell', 'x': x, 'NFFT': nf, 'P': P, 'name': name}, R)
     else:
         _, la, lb, pre = desc
         for a in itertools.product(COEF, repeat=la):
@@ -106,6 +114,30 @@ def eval_point(pt, R):
         R.check(obs.shape == ref.shape and not np.iscomplexobj(obs) and close(obs, ref, 1e-9, 0.0), 'arma2psd', feats, pt, obs, ref,
                 'arma2psd != (rho/T) |B(f)|^2 / |A(f)|^2 on the grid k/NFFT', outs=(obs,), err=relerr(obs, ref) if obs.shape == ref.shape else None)
         return
+    if pt['kind'] in ('burgcrit', 'daniell'):
+        import spectrum
+        x, NFFT = np.asarray(pt['x']), pt['NFFT']
+        N = len(x)
+        nf = C.resolve_nfft(NFFT, N)
+        feats = {'cls': 'pburg+criteria' if pt['kind'] == 'burgcrit' else 'pdaniell', 'dtype': 'complex' if np.iscomplexobj(x) else 'real'}
+        R.point(pt)
+        for fs in (1.0, 4.0, 1000.0):
+            ptf = dict(pt, fs=fs)
+            R.calls(2)
+            try:
+                if pt['kind'] == 'burgcrit':
+                    mk = lambda sbf: spectrum.pburg(x, 8, criteria=pt['criteria'], NFFT=NFFT, sampling=fs, scale_by_freq=sbf)
+                else:
+                    mk = lambda sbf: spectrum.pdaniell(x, pt['P'], NFFT=NFFT, sampling=fs, scale_by_freq=sbf)
+                Pf = np.asarray(mk(False).psd)
+                Pt = np.asarray(mk(True).psd)
+            except Exception as e:
+                R.viol('scale_by_freq', dict(feats, exc=type(e).__name__), ptf, repr(e), None, 'estimator raised inside its domain')
+                continue
+            exp = Pf * 2 * np.pi / (fs / nf)
+            R.check(Pt.shape == exp.shape and close(Pt, exp, 1e-9, 0.0), 'scale_by_freq', feats, ptf, Pt, exp,
+                    'scale_by_freq=True is not the unscaled estimate multiplied once by 2 pi/df, df = sampling/NFFT', outs=(Pf, fs))
+        return
     cls, o, x, NFFT = pt['cls'], pt['o'], np.asarray(pt['x']), pt['NFFT']
     N = len(x)
     nf = C.resolve_nfft(NFFT, N)
@@ -143,6 +175,15 @@ def eval_point(pt, R):
         R.check(Pt.shape == exp.shape and close(Pt, exp, 1e-9, 0.0) and abs(df - fs / nf) <= 1e-12 * fs / nf, 'scale_by_freq', feats, ptf, Pt, exp,
                 'scale_by_freq=True is not the unscaled estimate multiplied once by 2 pi/df, df = sampling/NFFT', outs=(Pf, fs),
                 err=relerr(Pt, exp) if Pt.shape == exp.shape else None)
+        if fs in (4.0, 0.02):
+            from ..ref import sides as rs
+            for sd in (('onesided', 'twosided', 'centerdc') if not cplx else ('twosided', 'centerdc')):
+                try:
+                    got = np.asarray(of.frequencies(sd), dtype=float)
+                    R.check(close(got, rs.axis(sd, nf, fs), 1e-12, 0.0), 'axis', dict(feats, sides=sd), ptf, got, rs.axis(sd, nf, fs),
+                            'frequencies(%s) is not the k*sampling/NFFT grid' % sd)
+                except Exception as e:
+                    R.viol('axis', dict(feats, sides=sd, exc=type(e).__name__), ptf, repr(e), None, 'frequencies() raised')
         base[fs] = (Pf, fr)
     if 1.0 not in base:
         return
